@@ -107,7 +107,12 @@ def oracle(sm, N, ess_ratio, vv, beta_prev, w, beta_upper_seen, where):
             if essr < target * (1 - 1e-9):
                 raise Violation(f"{where}: advanced from beta={beta_prev!r} to {b!r} where ESS={essr:.4f} < target {target:.4f}", sig={"kind": "ess-below-target"})
         else:
-            cands = [b] + ([float(x) for x in beta_upper_seen] if beta_upper_seen else []) + list(np.linspace(b, 1.0, 400))
+            seen_f = []
+            for x in beta_upper_seen or []:  # optional observation: whatever the helper returns, keep only plain numbers in [0,1]
+                for y in (x if isinstance(x, (tuple, list)) else [x]):
+                    if isinstance(y, (int, float, np.floating)) and 0.0 <= float(y) <= 1.0:
+                        seen_f.append(float(y))
+            cands = [b] + seen_f + list(np.linspace(b, 1.0, 400))
             ok = False
             for g in cands:
                 if g >= b - 1e-15 and ess_from_logw(mis_logw(L, BZ, LZ, float(g))[0]) >= target * (1 - 1e-9):
